@@ -592,16 +592,95 @@ def deadInst (g : TGrammar) (it : Inst) : Bool :=
     | some [] => true
     | _ => false
 
-/-- the whole template pipeline of `compileParser` -/
-def compile (src : TGrammar) (fuel : Nat) : Status × Option (List Inst × Grammar) :=
+/-! ## A certificate for `PropagateLookaheads` (decidable; evaluated on every case by the driver)
+
+`propCertB g F g'`: `g'` is `g` with more parameters and more arguments such that the meaning is kept
+when lookahead flags stop being implicit. `F` (the `flags` sets of step 1) is only a witness: it has to
+contain the flags a nonterminal looks at and be closed under "the first symbol can accept the flag". -/
+
+mutual
+def Pred.beq : Pred → Pred → Bool
+  | .eq p v, .eq p' v' => p == p' && v == v'
+  | .not a, .not b => a.beq b
+  | .and l, .and l' => Pred.beqL l l'
+  | .or l, .or l' => Pred.beqL l l'
+  | _, _ => false
+def Pred.beqL : List Pred → List Pred → Bool
+  | [], [] => true
+  | a :: l, b :: l' => a.beq b && Pred.beqL l l'
+  | _, _ => false
+end
+
+def optPredBeq : Option Pred → Option Pred → Bool
+  | none, none => true
+  | some a, some b => a.beq b
+  | _, _ => false
+
+/-- a parameter whose value matters inside a nonterminal with declared parameters `ntp` and flags `FN` -/
+def relevantB (g : TGrammar) (ntp FN : List Nat) (q : Nat) : Bool := ntp.contains q || (g.isLA q && FN.contains q)
+
+def refCertB (g : TGrammar) (FN FT ntp ntp' tp' : List Nat) (first : Bool) (args args' : List Arg) : Bool :=
+  (args'.map (·.param) == tp') &&
+  ((args.map (·.param) ++ args'.map (·.param)).all fun p =>
+    match findArg args p, findArg args' p with
+    | some x, some y => x == y && (match x with
+        | .takeFrom q => relevantB g ntp FN q
+        | .value _ => true)
+    | none, some y => g.isLA p && ((first && y == .takeFrom p) || (y == .value 0 && (!first || !ntp'.contains p)))
+    | some _, none => false
+    | none, none => true) &&
+  (!first || FT.all fun p => !g.isLA p || (args.map (·.param)).contains p ||
+    (FN.contains p && (!ntp'.contains p || tp'.contains p)))
+
+def Fof (F : List (List Nat)) (n : Nat) : List Nat := (F[n]?).getD []
+
+def seqCertB (g : TGrammar) (F : List (List Nat)) (g' : TGrammar) (FN ntp ntp' : List Nat) :
+    Bool → List Sym → List Sym → Bool
+  | _, [], [] => true
+  | _, .t a :: r, .t b :: r' => a == b && seqCertB g F g' FN ntp ntp' false r r'
+  | first, .n k args :: r, .n k' args' :: r' =>
+    k == k' && refCertB g FN (Fof F k) ntp ntp' (g'.ntParams k) first args args' &&
+    seqCertB g F g' FN ntp ntp' false r r'
+  | _, _, _ => false
+
+def altCertB (g : TGrammar) (F : List (List Nat)) (g' : TGrammar) (FN ntp ntp' : List Nat) (a a' : Alt) : Bool :=
+  optPredBeq a.pred a'.pred &&
+  (match a.pred with
+   | none => true
+   | some p => p.params.all (relevantB g ntp FN)) &&
+  seqCertB g F g' FN ntp ntp' true a.rhs a'.rhs
+
+def altsCertB (g : TGrammar) (F : List (List Nat)) (g' : TGrammar) (FN ntp ntp' : List Nat) : List Alt → List Alt → Bool
+  | [], [] => true
+  | a :: l, a' :: l' => altCertB g F g' FN ntp ntp' a a' && altsCertB g F g' FN ntp ntp' l l'
+  | _, _ => false
+
+def paramsCertB (g : TGrammar) (FN : List Nat) (nt nt' : Nonterm) : Bool :=
+  (nt.params.all fun p => !g.isLA p && nt'.params.contains p) &&
+  (nt'.params.all fun p => nt.params.contains p || (g.isLA p && FN.contains p))
+
+def ntCertB (g : TGrammar) (F : List (List Nat)) (g' : TGrammar) (N : Nat) (nt nt' : Nonterm) : Bool :=
+  paramsCertB g (Fof F N) nt nt' && altsCertB g F g' (Fof F N) nt.params nt'.params nt.alts nt'.alts
+
+def ntsCertB (g : TGrammar) (F : List (List Nat)) (g' : TGrammar) : Nat → List Nonterm → List Nonterm → Bool
+  | _, [], [] => true
+  | N, nt :: l, nt' :: l' => ntCertB g F g' N nt nt' && ntsCertB g F g' (N + 1) l l'
+  | _, _, _ => false
+
+def propCertB (g : TGrammar) (F : List (List Nat)) (g' : TGrammar) : Bool :=
+  g'.nTerms == g.nTerms && ntsCertB g F g' 0 g.nts g'.nts
+
+/-- the whole template pipeline of `compileParser`; the last component says whether the propagation
+certificate holds (always expected for status `ok`) -/
+def compile (src : TGrammar) (fuel : Nat) : Status × Option (List Inst × Grammar) × Bool :=
   match resolveAll src with
-  | none => (.err, none)
+  | none => (.err, none, false)
   | some m =>
     match propagate m with
     | (.ok, m') =>
       (match instantiate m' fuel with
-       | some r => (.ok, some r)
-       | none => (.fatal, none))
-    | (st, _) => (st, none)
+       | some r => (.ok, some r, propCertB m (laFlags m) m')
+       | none => (.fatal, none, false))
+    | (st, _) => (st, none, false)
 
 end TmVerif.Templates
